@@ -193,7 +193,8 @@ func RunSeederScenario(sc *SeedScenario, scen int, log *scenLog, stats map[strin
 }
 
 // CmdSeederRun: vh gsp-seeder <scenarios.ndjson> <trace.ndjson> [tightEvery]
-// every tightEvery-th scenario is run a second time with a tight pending-responses limit.
+// every tightEvery-th scenario is run a second time with a tight pending-responses limit
+// (tightEvery < 0: each scenario once, with its own "tight" flag).
 func CmdSeederRun(args []string) int {
 	if len(args) < 2 {
 		fmt.Fprintln(os.Stderr, "usage: vh gsp-seeder <scenarios.ndjson> <trace.ndjson> [tightEvery]")
@@ -220,6 +221,9 @@ func CmdSeederRun(args []string) int {
 		variants := []bool{false}
 		if tightEvery > 0 && idx%tightEvery == 0 {
 			variants = append(variants, true)
+		}
+		if tightEvery < 0 { // replay: as recorded
+			variants = []bool{s.Tight}
 		}
 		for _, tight := range variants {
 			s.Tight = tight
